@@ -150,6 +150,7 @@ Proof.
       destruct E3 as [l El]. rewrite El in *.
       rewrite E2. rewrite <- app_assoc. rewrite is_prefix_app.
       rewrite skipn_app_len. cbn [app]. rewrite event_eqb_refl. reflexivity.
+    + (* ALive *) inversion E1; subst. simpl. exact E2.
     + (* ASpawn *) inversion E1; subst. simpl. exact E2.
 Qed.
 
